@@ -62,6 +62,7 @@ pub fn all() -> Vec<Scenario> {
         Scenario { name: "on_update_added_from_on_update_handler", props: &["C04"], run: on_update_added_from_on_update_handler },
         Scenario { name: "unsubscribe_from_drop_of_handler_capture", props: &["C04", "C10", "C12"], run: unsubscribe_from_drop_of_handler_capture },
         Scenario { name: "guard_cancels_sibling_subscription_on_drop", props: &["C04", "C10", "C09"], run: guard_cancels_sibling_subscription_on_drop },
+        Scenario { name: "unsubscribe_guard_outlives_state", props: &["C12", "C04", "C10"], run: unsubscribe_guard_outlives_state },
         Scenario { name: "state_unsubscribe_before_first_stabilise", props: &["C09", "C10"], run: state_unsubscribe_before_first_stabilise },
     ]
 }
@@ -1382,6 +1383,60 @@ fn guard_cancels_sibling_subscription_on_drop() -> Result<(), String> {
         check!(keep.try_get_value() == Ok(3), "how={how}: {:?}", keep.try_get_value());
         let a = st.verif_audit();
         check!(a.is_empty(), "how={how}: audit: {}", a.join(" / "));
+    }
+    Ok(())
+}
+
+
+/// The guard pattern of tests/fixed_point.rs (`WeakState::unsubscribe(token)` in a `Drop`) when the
+/// guard outlives the state, or is owned by a handler that the state's own teardown drops
+/// (defect #28): `WeakState::unsubscribe` unwrapped the dead state inside a destructor.
+fn unsubscribe_guard_outlives_state() -> Result<(), String> {
+    struct Guard {
+        state: incremental::WeakState,
+        token: incremental::SubscriptionToken,
+    }
+    impl Drop for Guard {
+        fn drop(&mut self) {
+            self.state.unsubscribe(self.token);
+        }
+    }
+    for how in 0..3 {
+        let st = IncrState::new();
+        let v = st.var(1i64);
+        let o = v.observe();
+        let t1 = o.subscribe(|_| ());
+        let guard = Guard { state: st.weak(), token: t1 };
+        match how {
+            // a free-standing guard dropped after the state and everything else
+            0 => {
+                st.stabilise();
+                drop(st);
+                drop(o);
+                drop(v);
+                drop(guard);
+            }
+            // owned by a handler; the state goes first, then the observer
+            1 => {
+                o.subscribe(move |_| {
+                    let _ = &guard;
+                });
+                st.stabilise();
+                drop(st);
+                drop(v);
+                drop(o);
+            }
+            // owned by a handler of an observer whose handles are gone: dropped by the state's teardown
+            _ => {
+                o.subscribe(move |_| {
+                    let _ = &guard;
+                });
+                st.stabilise();
+                drop(v);
+                drop(o);
+                drop(st);
+            }
+        }
     }
     Ok(())
 }
